@@ -63,8 +63,10 @@ Proof.
   assert (Hst : (2 <= stage (pc s))%nat -> 5 <= status s) by (intros H; apply i_s4 in H; tauto).
   destruct e; simpl; auto; try (split; auto; fail).
   - destruct (status s <=? 4) eqn:E; [|split; auto]. apply N.leb_le in E.
+    destruct (negb (mem g (groups s))); simpl; [|split; auto].
     split; t; try (intros H; specialize (Hst H); lia).
   - destruct (status s <=? 4) eqn:E; [|split; auto]. apply N.leb_le in E.
+    destruct (negb (mem g (mons s))); simpl; [|split; auto].
     split; t; try (intros H; specialize (Hst H); lia).
   - destruct (status s <? 4) eqn:E; [|split; auto]. apply N.ltb_lt in E.
     split; t; try (intros H; assert (2 <= stage (pc s))%nat by lia; specialize (Hst H0); lia).
@@ -224,8 +226,8 @@ Lemma eff_fields : forall e s,
   pc (apply_eff e s) = pc s /\ named (apply_eff e s) = named s /\ name_other (apply_eff e s) = name_other s.
 Proof.
   intros e s. destruct e; simpl; auto.
-  - destruct (status s <=? 4); auto.
-  - destruct (status s <=? 4); auto.
+  - destruct (_ && _); auto.
+  - destruct (_ && _); auto.
   - destruct (status s <? 4); auto.
   - destruct (status s <? 4); auto. destruct (my_children s); auto.
 Qed.
